@@ -194,6 +194,10 @@ def check(case) -> Outcome:
         q = build_infer(V, head, case["cond"], case["infer_style"], case.get("split_top"))
     except Exception as e:
         return fail("exception", f"building: {type(e).__name__}: {e}", nontrivial=nontrivial, classes=classes, features=feats)
+    if case.get("later_uses"):
+        from ..build import later_uses
+        kept = later_uses(V)
+        classes.append("terms_mentioned_again_in_expressions_built_later")
     try:
         abandon(q, case.get("abandon_first", 0))       # an evaluation given up after a few instances comes first
     except Exception as e:
